@@ -26,7 +26,8 @@ ASSUMPTIONS = [
     "the packet-data-rate limiter (annex B.2) is not modelled; each test packet comes from a fresh (source, SN)",
 ]
 EXPLANATION = ("theorems: F >= 0 iff inside for circle / rectangle / ellipse incl. rotation invariance of the circle (Q, all inputs); "
-               "router delivers GBC/GAC iff inside, GAC inside is never forwarded, oversized areas refused / not forwarded, Annex D "
+               "router delivers GBC/GAC iff inside (for every hop limit; on the last hop delivered and not forwarded), GAC inside is "
+               "never forwarded, oversized areas refused / not forwarded, Annex D "
                "table; correspondence + oracle on receiver positions placed inside / outside / near the border of rotated areas")
 
 
@@ -89,6 +90,10 @@ def point_in_frame(area, u, v):
     return int(round(lat_e * 1e7)), int(round(lon_e * 1e7))
 
 
+# remaining hop limit of the received packets: 1 = last permitted hop (delivered, never forwarded), 2 = forwarded with RHL 1,
+# the default 10, both ends of the octet
+RHL_VALUES = [1, 1, 2, 2, 3, 10, 255]
+
 # rectangles whose size 4ab is EXACTLY itsGnMaxGeoAreaSize (not larger: to be accepted / forwarded), per limit in km2
 EXACT_RECT = {1: [(500, 500), (250, 1000), (1000, 250), (125, 2000), (4, 62500)],
               10: [(2500, 1000), (1000, 2500), (50, 50000), (40, 62500)],
@@ -113,7 +118,13 @@ def run_cases(ctx, n_cases):
 
         def add_rx(area, kind, mode, tag=""):
             src = rng.choice(sc.sources[1:])
-            ev = sc.rx_event(kind, src=src, area=area, rhl=rng.choice([2, 3, 10]), mhl=10, scf=(rng.random() < 0.25))
+            # hop-limit fields of the received packet: the delivery clause has no hop-limit precondition - a packet on its
+            # LAST permitted hop (RHL = 1: the chain source -> forwarders -> this station used the whole hop limit of the
+            # request) is delivered inside the area like any other, it is just not forwarded any further. RHL over its
+            # range 1..255 (both ends), MHL = RHL (nobody forwarded it yet) or larger (RHL > MHL is a malformed packet: C04)
+            rhl = rng.choice(RHL_VALUES)
+            mhl = rng.choice([rhl, max(rhl, 10), min(255, rhl + rng.choice([1, 2, 9])), 255])
+            ev = sc.rx_event(kind, src=src, area=area, rhl=rhl, mhl=mhl, scf=(rng.random() < 0.25))
             evs.append(ev)
             meta.append(("rx", area, mode + tag, ego))
             used.append((area, kind))
@@ -245,6 +256,8 @@ def oracle(ctx, st, evs, meta, impl):
             continue
         inside = f >= 0
         delivered = len(obs["inds"]) > 0
+        ctx.count(1, "rx_%s_%s_%s" % (ev["kind"], "last_hop_rhl1" if ev["rhl"] == 1 else "rhl2" if ev["rhl"] == 2 else "rhl3plus",
+                                      "inside" if inside else "outside"))
         fwd = [p for p in obs["sent"]]
         buffered = [k for k in obs["state"]["cbf"] if list(k) == list(ev["src"]) + [ev["sn"]]]
         if obs["err"]:
@@ -270,7 +283,8 @@ def oracle(ctx, st, evs, meta, impl):
             ctx.property_failure("annexD_discard", inp, "ego outside and sender inside the area: Annex D says discard, "
                                  "but the packet was forwarded", 0, len(fwd))
         # Annex D, the forwarding side: where the standard selects area or non-area forwarding the packet does go on
-        # (not oversized, hop limit >= 2 in every generated packet, and not held back by store-carry-forward)
+        # (not oversized, hop limit not used up - packets on their last hop, RHL = 1, are delivered but go no further -,
+        # and not held back by store-carry-forward)
         scf = ev["scf"]
         if not big and not near_size and (nbs or not scf) and ev["rhl"] >= 2:
             if inside and ev["kind"] == "gbc":
@@ -289,7 +303,8 @@ def oracle(ctx, st, evs, meta, impl):
 
 
 def run(ctx):
-    ctx.rule = ("GBC / GAC packets (fresh source+SN each, every header field varied) and requests whose circle / rectangle / "
+    ctx.rule = ("GBC / GAC packets (fresh source+SN each, every header field varied, remaining hop limit 1 = last permitted hop, "
+                "2, 3, 10, 255 with MHL >= RHL) and requests whose circle / rectangle / "
                 "ellipse (semi-axes 1..65535 m, azimuth 0..359) is placed so that the receiver lies inside, outside, just inside / "
                 "outside the border, in the rectangle corner (then also under the two other shapes), or far away, at seven ego "
                 "positions in all hemispheres incl. 85 N and 85 S; the station moves and earlier areas are used again; "
